@@ -174,7 +174,8 @@ def check(ctx):
                         kind = "is rebuilt by concatenation with itself (the accumulated text is copied in every iteration)"
                     elif isinstance(rhs, ast.Call):
                         name = rhs.func.attr if isinstance(rhs.func, ast.Attribute) else getattr(rhs.func, "id", None)
-                        if name in ("deepcopy", "copy", "list", "tuple", "sorted"):
+                        if name in ("deepcopy", "list", "tuple", "sorted") or (name == "copy" and isinstance(a_.targets[0], ast.Name)):
+                            # (a shallow copy of ONE node reached through a field - x.type = copy.copy(x.type) - is constant work: a node has a fixed set of slots)
                             kind = f"is copied by {name}() in every iteration"
                         elif name in funcs and not name.startswith("_parse_"):
                             idxs = chain_walk_param(funcs[name][1])
@@ -200,6 +201,18 @@ def check(ctx):
                         ctx.oblige("R-C16.5", f"{fn.name}: deepcopy inside a loop", False)
                         ctx.violation("R-C16.5", f"deepcopy-in-loop:{fn.name}:{S.unparse(c_)[:40]}", f"{fn.name} deep-copies `{S.unparse(c_.args[0])[:50] if c_.args else ''}` inside a loop: nested or repeated constructs are copied again at every level / iteration (work grows quadratically or exponentially with nesting)",
                                       file=m_.rel, function=fn.name, line=c_.lineno, construct=S.unparse(c_)[:120])
+    # a deep copy costs the size of the copied subtree; made while a declaration is built it is repeated for every declarator and at every
+    # nesting level (D34: `_Atomic(struct { ... }) a, b;` doubled the tree per level): nothing reachable from parse() deep-copies AST nodes
+    for m_ in (px, tx):
+        fns5 = list(m_.functions.values()) + [f_ for c_ in m_.classes.values() for f_ in c_.body if isinstance(f_, ast.FunctionDef)]
+        for fn in fns5:
+            for c_ in ast.walk(fn):
+                if isinstance(c_, ast.Call) and S.unparse(c_.func) in ("copy.deepcopy", "deepcopy") and ("deepcopy", fn.name) not in seen5:
+                    seen5.add(("deepcopy", fn.name))
+                    ctx.oblige("R-C16.5", f"{fn.name}: deep copy of a subtree", False)
+                    ctx.violation("R-C16.5", f"deepcopy:{fn.name}:{S.unparse(c_)[:40]}", f"{fn.name} deep-copies `{S.unparse(c_.args[0])[:50] if c_.args else ''}` while the tree is built: the copy costs the size of the subtree and is repeated for every "
+                                  "declarator and nesting level that contains it (a specifier with a struct body inside another one doubles the work per level)", file=m_.rel, function=fn.name, line=c_.lineno, construct=S.unparse(c_)[:120])
+    ctx.oblige("R-C16.5", "no deep copy of AST subtrees while parsing", True, nontrivial=False)
     if n5 < 10:
         raise AnalysisError(f"only {n5} loop-carried updates found in the parser, lexer and transforms (confirmed by reading: > 20)")
     # ---- R-C16.2 ---------------------------------------------------------------
